@@ -824,7 +824,7 @@ class SymPath(_PathBase):
 
     def _fail(self, label, model, detail):
         self._count(label, 1)
-        d = dict(self.notes)
+        d = {k: v for k, v in self.notes.items() if not k.startswith("_")}
         d.update(detail)
         self.failures.append(dict(label=label, inputs=self.model_inputs(model), trace=list(self.trace),
                                   detail=jsonable(d), decisions=_dec_json(self.decisions)))
@@ -1073,7 +1073,7 @@ class ConcretePath(_PathBase):
             self._count(label, 0)
         else:
             self._count(label, 1)
-            d = dict(self.notes)
+            d = {k: v for k, v in self.notes.items() if not k.startswith("_")}
             d.update(detail)
             self.failures.append(dict(label=label, inputs=jsonable(self.inputs), trace=list(self.trace),
                                       detail=jsonable(d)))
@@ -1091,7 +1091,7 @@ class ConcretePath(_PathBase):
             self._count(label, 0)
         else:
             self._count(label, 1)
-            d = dict(self.notes)
+            d = {k: v for k, v in self.notes.items() if not k.startswith("_")}
             d.update(detail)
             self.failures.append(dict(label=label, inputs=jsonable(self.inputs), trace=list(self.trace),
                                       detail=jsonable(d)))
@@ -1380,7 +1380,7 @@ def run_concrete(harness, inputs, tol=1e-6):
         tb = traceback.extract_tb(e.__traceback__)
         p.exception = (type(e).__name__, str(e)[:300])
         p.failures.append(dict(label="unexpected-exception", inputs=jsonable(p.inputs), trace=list(p.trace),
-                               detail=jsonable(dict(p.notes, exc=type(e).__name__, msg=str(e)[:300],
+                               detail=jsonable(dict({k: v for k, v in p.notes.items() if not k.startswith("_")}, exc=type(e).__name__, msg=str(e)[:300],
                                                     tb=traceback.format_exc()[-1200:]))))
     finally:
         _set_cur(None)
